@@ -70,23 +70,25 @@ class OpAdd(Op):
     ) -> Union[MutableSequence[object], MutableMapping[str, object]]:
         """Apply this patch operation to _data_."""
         parent, obj = self.path.resolve_parent(data)
+        # The patch keeps its own value: the document gets a copy.
+        value = copy.deepcopy(self.value)
         if parent is None:
             # Replace the root object.
             # The following op, if any, will raise a JSONPatchError if needed.
-            return self.value  # type: ignore
+            return value  # type: ignore
 
         target = self.path.parts[-1]
         if isinstance(parent, MutableSequence):
             if obj is UNDEFINED:
                 # "-" and an index equal to the length both mean "append".
                 if target == "-" or target == len(parent):
-                    parent.append(self.value)
+                    parent.append(value)
                 else:
                     raise JSONPatchError("index out of range")
             else:
-                parent.insert(int(target), self.value)
+                parent.insert(int(target), value)
         elif isinstance(parent, MutableMapping):
-            parent[_member_name(parent, target)] = self.value
+            parent[_member_name(parent, target)] = value
         else:
             raise JSONPatchError(
                 f"unexpected operation on {parent.__class__.__name__!r}"
@@ -116,25 +118,27 @@ class OpAddNe(OpAdd):
     ) -> Union[MutableSequence[object], MutableMapping[str, object]]:
         """Apply this patch operation to _data_."""
         parent, obj = self.path.resolve_parent(data)
+        # The patch keeps its own value: the document gets a copy.
+        value = copy.deepcopy(self.value)
         if parent is None:
             # Replace the root object.
             # The following op, if any, will raise a JSONPatchError if needed.
-            return self.value  # type: ignore
+            return value  # type: ignore
 
         target = self.path.parts[-1]
         if isinstance(parent, MutableSequence):
             if obj is UNDEFINED:
                 # Same as "add": "-" and an index equal to the length append.
                 if target == "-" or target == len(parent):
-                    parent.append(self.value)
+                    parent.append(value)
                 else:
                     raise JSONPatchError("index out of range")
             else:
-                parent.insert(int(target), self.value)
+                parent.insert(int(target), value)
         elif isinstance(parent, MutableMapping):
             key = _member_name(parent, target)
             if key not in parent:
-                parent[key] = self.value
+                parent[key] = value
         return data
 
 
@@ -156,19 +160,21 @@ class OpAddAp(OpAdd):
     ) -> Union[MutableSequence[object], MutableMapping[str, object]]:
         """Apply this patch operation to _data_."""
         parent, obj = self.path.resolve_parent(data)
+        # The patch keeps its own value: the document gets a copy.
+        value = copy.deepcopy(self.value)
         if parent is None:
             # Replace the root object.
             # The following op, if any, will raise a JSONPatchError if needed.
-            return self.value  # type: ignore
+            return value  # type: ignore
 
         target = self.path.parts[-1]
         if isinstance(parent, MutableSequence):
             if obj is UNDEFINED:
-                parent.append(self.value)
+                parent.append(value)
             else:
-                parent.insert(int(target), self.value)
+                parent.insert(int(target), value)
         elif isinstance(parent, MutableMapping):
-            parent[_member_name(parent, target)] = self.value
+            parent[_member_name(parent, target)] = value
         else:
             raise JSONPatchError(
                 f"unexpected operation on {parent.__class__.__name__!r}"
@@ -233,17 +239,19 @@ class OpReplace(Op):
     ) -> Union[MutableSequence[object], MutableMapping[str, object]]:
         """Apply this patch operation to _data_."""
         parent, obj = self.path.resolve_parent(data)
+        # The patch keeps its own value: the document gets a copy.
+        value = copy.deepcopy(self.value)
         if parent is None:
-            return self.value  # type: ignore
+            return value  # type: ignore
 
         if isinstance(parent, MutableSequence):
             if obj is UNDEFINED:
                 raise JSONPatchError("can't replace nonexistent item")
-            parent[int(self.path.parts[-1])] = self.value
+            parent[int(self.path.parts[-1])] = value
         elif isinstance(parent, MutableMapping):
             if obj is UNDEFINED:
                 raise JSONPatchError("can't replace nonexistent property")
-            parent[_member_name(parent, self.path.parts[-1])] = self.value
+            parent[_member_name(parent, self.path.parts[-1])] = value
         else:
             raise JSONPatchError(
                 f"unexpected operation on {parent.__class__.__name__!r}"
